@@ -1138,7 +1138,7 @@ udp_ep_close(void *arg)
 	udp_ep   *ep = arg;
 	udp_pipe *p;
 	nni_aio  *aio;
-	uint32_t  cursor;
+	uint32_t  cursor = 0;
 	uint64_t  key;
 
 	nni_mtx_lock(&ep->mtx);
